@@ -622,7 +622,7 @@ func (ex *Exec) callbackFramed(f *Frame) map[int]bool {
 	if ct == nil || len(ct.Callbacks) == 0 {
 		return out
 	}
-	base, haveBase := loadSignatureBaseline()[strings.ReplaceAll(f.Fn.String(), modulePrefix+"/", "")]
+	base, haveBase := loadSignatureBaseline()[canonFn(strings.ReplaceAll(f.Fn.String(), modulePrefix+"/", ""))]
 	for i, p := range f.Fn.Params {
 		if ct.Callbacks[p.Name()] || (haveBase && i < len(base.Params) && ct.Callbacks[base.Params[i]]) {
 			out[i] = true
@@ -667,7 +667,7 @@ func (ex *Exec) checkCallbackFrames(st *State, fr *Frame, ins ssa.Instruction, f
 	if ct == nil || len(ct.Callbacks) == 0 {
 		return
 	}
-	base, haveBase := loadSignatureBaseline()[strings.ReplaceAll(f.String(), modulePrefix+"/", "")]
+	base, haveBase := loadSignatureBaseline()[canonFn(strings.ReplaceAll(f.String(), modulePrefix+"/", ""))]
 	for i, p := range f.Params {
 		if !(ct.Callbacks[p.Name()] || (haveBase && i < len(base.Params) && ct.Callbacks[base.Params[i]])) || i >= len(args) {
 			continue
